@@ -17,6 +17,7 @@ import (
 	"bytes"
 	"errors"
 	"fmt"
+	"hash/fnv"
 	"io"
 	"math/rand"
 	"os"
@@ -429,7 +430,7 @@ func checkC13(c *lib.Ctx) {
 			res.Hist("known=F6-observed")
 		}
 		if out.SetupErr == nil && !out.Hang && out.Panic == nil && cs.SrcFailAfter == 0 && cs.ShortCap == 0 {
-			mc.addCase(model, cs, out)
+			mc.addCase(model, cs, out, 32768)
 		}
 	}
 
@@ -666,12 +667,21 @@ type xfSeqLine struct {
 }
 
 type xfSeqCompare struct {
+	oneIn int // > 1: only every oneIn-th line (by hash) is kept
 	mu    sync.Mutex
 	seen  map[string]bool
 	items []xfSeqLine
 }
 
 func (m *xfSeqCompare) add(it xfSeqLine) {
+	if m.oneIn > 1 {
+		// deterministic thinning (by the text of the line) where a tier produces millions of lines
+		h := fnv.New32a()
+		h.Write([]byte(it.line))
+		if h.Sum32()%uint32(m.oneIn) != 0 {
+			return
+		}
+	}
 	m.mu.Lock()
 	defer m.mu.Unlock()
 	if m.seen == nil {
@@ -736,13 +746,13 @@ func xfSeqCall(cs xfCase) string {
 	return ""
 }
 
-func (m *xfSeqCompare) addCase(model xfModel, cs xfCase, out xfOutcome) {
+func (m *xfSeqCompare) addCase(model xfModel, cs xfCase, out xfOutcome, maxTx int) {
 	if cs.NoPerm {
 		return
 	}
 	if cs.API == "ReadAt" && model.ReadAt {
 		m.add(xfSeqLine{readat: true, input: cs,
-			line:  fmt.Sprintf("xfer.readat %s %d %d %d %s", model.cfgToken(cs.Cfg, 32768), cs.FileLen, cs.Off, cs.Len, xfFailSpec(cs)),
+			line:  fmt.Sprintf("xfer.readat %s %d %d %d %s", model.cfgToken(cs.Cfg, maxTx), cs.FileLen, cs.Off, cs.Len, xfFailSpec(cs)),
 			calls: fmt.Sprintf("%d %s %d", out.N, xfErrClass(out.Err), xfHash(out.Data))})
 		return
 	}
@@ -760,7 +770,7 @@ func (m *xfSeqCompare) addCase(model xfModel, cs xfCase, out xfOutcome) {
 		impl = fmt.Sprintf("%d:%d:ok:7;", cs.Off, cs.Off)
 	}
 	impl += fmt.Sprintf("%d:%d:%s:%d", out.OffAfter, out.N, xfErrClass(out.Err), xfHash(out.Data))
-	it := xfSeqLine{input: cs, line: fmt.Sprintf("xfer.seq %s %d %s %s", model.cfgToken(cs.Cfg, 32768), cs.FileLen, calls, xfFailSpec(cs)),
+	it := xfSeqLine{input: cs, line: fmt.Sprintf("xfer.seq %s %d %s %s", model.cfgToken(cs.Cfg, maxTx), cs.FileLen, calls, xfFailSpec(cs)),
 		calls: impl, file: fmt.Sprintf("%d:%d", len(out.FileAfter), xfHash(out.FileAfter))}
 	if len(cs.Fail) > 0 && cs.Path() == "concurrent" && !cs.IsRead() {
 		// which chunks beyond the failing one were sent, and how much the source had handed out, depends on the schedule
